@@ -15,25 +15,8 @@
 #define STR(n) IN_ARR_U8(n, MAXL + 1); n[MAXL] = 0
 #define NPOS (~(uint64_t)0)
 
-/* ---- allocator ledger: a header in front of every buffer records the requested size */
-#define HDR 16
-static uint64_t led_allocs, led_frees, led_errors;
-uint8_t* h_rec_alloc(uint64_t size) {
-  CHECK(size < ((uint64_t)1 << 32), "string buffer request is sane (no wrapped size)");
-  ENV_ENGINE_ASSERT(size <= ENV_MALLOC_CAP - HDR, "string buffer larger than the harness heap capacity (bound too small)");
-  uint8_t* p = env_malloc(size + HDR);
-  ((uint64_t*)p)[0] = 0xA110CA7EDULL; ((uint64_t*)p)[1] = size;
-  led_allocs++;
-  return p + HDR;
-}
-void h_rec_free(uint8_t* q, uint64_t size) {
-  uint8_t* p = q - HDR;
-  if (((uint64_t*)p)[0] != 0xA110CA7EDULL) led_errors |= 1;     /* not a live buffer of this allocator */
-  if (((uint64_t*)p)[1] != size) led_errors |= 2;               /* returned with a different size */
-  ((uint64_t*)p)[0] = 0xDEAD;
-  led_frees++;
-  env_free(p);
-}
+/* ---- allocator ledger (h13_ledger.h): requested sizes recorded, red zones on both sides of every buffer */
+#include "h13_ledger.h"
 #define LEDGER_OK() do { CHECK(led_errors == 0, "every buffer is returned with the size it was requested with"); \
                          CHECK(led_allocs == led_frees, "every buffer is returned to the string allocator exactly once"); \
                          CHECK(led_allocs > 0, "operation used the string allocator"); } while (0)
